@@ -416,8 +416,8 @@ def canon_awkward(op, res, variant):
     return skel, out, meta
 
 
-def compare_elem(op, got, exp, unit, gain):
-    """-> (ok, message)"""
+def compare_elem(op, got, exp, unit, gain, cond=mpf(1)):
+    """-> (ok, message); cond: extra tolerance factor where the definition itself is ill-conditioned"""
     if exp[0] == "exc":
         return None, "object raised"
     e = exp[1]
@@ -435,7 +435,7 @@ def compare_elem(op, got, exp, unit, gain):
     if op.result == "angle":
         err = R.angdiff(got, e)
     else:
-        err = E.rel_error(op, got, e, unit, gain)
+        err = E.rel_error(op, got, e, unit, gain) / cond
     return (err <= TOL), f"rel_error {mpmath.nstr(err, 5)} got {mpmath.nstr(got, 20)} expected {mpmath.nstr(e, 20)}"
 
 
@@ -626,7 +626,8 @@ def _judge_values(op, dim, res, prop, sig, var, cases, exp, units, gain, out, ex
         if g is None:
             res.violation(f"{prop}/value-became-missing variant={_vclass(name)} op={op.name}", {"sig": sig, "variant": name, "row": ri})
             continue
-        ok, msg = compare_elem(op, g, exp[ri], units[ri], gain)
+        cond = E.cond_gain(op, cases[ri][0], cases[ri][1], TOL, True) if op.name in E.ILL_CONDITIONED_AT_COLLINEAR else mpf(1)
+        ok, msg = compare_elem(op, g, exp[ri], units[ri], gain, cond)
         if ok is None:
             res.count("skip_element_not_comparable")
             continue
